@@ -28,7 +28,7 @@ const MainName = "<main>"
 
 func CreateBytecodeCompiler(parent *BytecodeCompiler, checker types.Checker, loc *position.Location, errors *diagnostic.SyncDiagnosticList, additionalAbortChecks bool) *BytecodeCompiler {
 	compiler := NewBytecodeCompiler(loc.FilePath, topLevelBytecodeCompilerMode, loc, checker, newBytecodeGlobalData())
-	compiler.additionalAbortChecks = additionalAbortChecks
+	compiler.setAdditionalAbortChecks(additionalAbortChecks)
 	compiler.Errors = errors
 	compiler.parent = parent
 	return compiler
@@ -48,7 +48,7 @@ func CreateBreakpointCompiler(checker types.Checker, context *BytecodeBreakpoint
 
 func (c *BytecodeCompiler) CreateMainCompiler(checker types.Checker, loc *position.Location, errors *diagnostic.SyncDiagnosticList, output io.Writer, additionalAbortChecks bool) Compiler {
 	compiler := NewBytecodeCompiler(loc.FilePath, topLevelBytecodeCompilerMode, loc, checker, newBytecodeGlobalData())
-	compiler.additionalAbortChecks = additionalAbortChecks
+	compiler.setAdditionalAbortChecks(additionalAbortChecks)
 	compiler.predefinedLocals = c.maxLocalIndex + 1
 	compiler.scopes = c.scopes
 	compiler.lastLocalIndex = c.lastLocalIndex
@@ -67,6 +67,15 @@ func (c *BytecodeCompiler) InitGlobalEnv() Compiler {
 }
 
 func (c *BytecodeCompiler) InitMainCompiler() {}
+
+// Enable or disable abort checks in this compiler and in every
+// compiler that shares its global data (nested methods, closures, namespaces).
+func (c *BytecodeCompiler) setAdditionalAbortChecks(val bool) {
+	c.additionalAbortChecks = val
+	if c.globalData != nil {
+		c.globalData.additionalAbortChecks = val
+	}
+}
 
 func (c *BytecodeCompiler) FinishGlobalEnvCompiler() {
 	if len(c.bytecode.Instructions) > 0 {
@@ -248,6 +257,9 @@ func newBytecodeCall(methodName value.Symbol, bytecode *vm.BytecodeFunction, off
 
 type bytecodeGlobalData struct {
 	callsToOptimise *concurrent.Slice[*bytecodeCall]
+	// whether abort checks should be compiled, shared with every compiler
+	// created for nested units (methods, closures, namespaces etc)
+	additionalAbortChecks bool
 }
 
 func newBytecodeGlobalData() *bytecodeGlobalData {
@@ -299,6 +311,9 @@ func NewBytecodeCompiler(name string, mode bytecodeCompilerMode, loc *position.L
 		checker:        checker,
 		globalData:     globalData,
 		Errors:         diagnostic.NewSyncDiagnosticList(),
+	}
+	if globalData != nil {
+		c.additionalAbortChecks = globalData.additionalAbortChecks
 	}
 	// reserve the first slot on the stack for `self`
 	c.defineLocal("$self", position.DefaultLocation)
@@ -2093,6 +2108,12 @@ func (c *BytecodeCompiler) compileContinueExpressionNode(node *ast.ContinueExpre
 	loop := c.findLoopJumpSet(labelName, location)
 	if loop == nil {
 		return
+	}
+
+	if c.additionalAbortChecks {
+		// `continue` jumps straight to the loop start (or through the enclosing `finally` blocks)
+		// and so skips the abort check emitted at the end of the loop body
+		c.emit(location.StartPos.Line, bytecode.CHECK_ABORT)
 	}
 
 	if !loop.returnsValueFromLastIteration {
